@@ -1148,28 +1148,38 @@ func ruleC20TreeCheck(c *Ctx) {
 	res := c.Closure(rule, "RES")
 	found := false
 	for _, fn := range res.Sorted() {
-		if fn.Parent() == nil {
+		if !c.P.InPkg(fn) || (fn.Parent() == nil && (fn.Object() == nil || fn.Object().Exported())) {
 			continue
 		}
-		// self-recursive closure taking a reflect.Value
-		if len(fn.Params) == 0 || !tReflectValue(fn.Params[0].Type()) {
+		// a self-recursive function (closure, function or method) taking a reflect.Value
+		hasValueParam := false
+		for _, p := range fn.Params {
+			if tReflectValue(p.Type()) {
+				hasValueParam = true
+			}
+		}
+		if !hasValueParam {
 			continue
 		}
 		fi := core.Info(fn)
 		var lk *ssa.Lookup
 		var mu *ssa.MapUpdate
 		var rec []ssa.Instruction
-		core.EachInstr(fn, func(i ssa.Instruction) {
+		for _, fam := range c.familyInstrs(fn) {
+			i := fam.I
 			switch x := i.(type) {
 			case *ssa.Lookup:
-				if m, ok := x.X.Type().Underlying().(*types.Map); ok && isPointer(m.Key()) && c.isPkgNamed(m.Key(), "Schema") && x.CommaOk {
+				if m, ok := x.X.Type().Underlying().(*types.Map); ok && isPointer(m.Key()) && c.isPkgNamed(m.Key(), "Schema") && x.CommaOk && x.Parent() == fn {
 					lk = x
 				}
 			case *ssa.MapUpdate:
-				if m, ok := x.Map.Type().Underlying().(*types.Map); ok && isPointer(m.Key()) && c.isPkgNamed(m.Key(), "Schema") {
+				if m, ok := x.Map.Type().Underlying().(*types.Map); ok && isPointer(m.Key()) && c.isPkgNamed(m.Key(), "Schema") && x.Parent() == fn {
 					mu = x
 				}
 			case *ssa.Call:
+				if x.Call.StaticCallee() == fn {
+					rec = append(rec, x)
+				}
 				if x.Call.StaticCallee() == nil && !x.Call.IsInvoke() {
 					for _, callee := range core.Callees(c.G, x) {
 						if callee == fn {
@@ -1178,7 +1188,7 @@ func ruleC20TreeCheck(c *Ctx) {
 					}
 				}
 			}
-		})
+		}
 		if lk == nil || mu == nil || len(rec) == 0 {
 			continue
 		}
@@ -1203,7 +1213,7 @@ func ruleC20TreeCheck(c *Ctx) {
 		c.R.Check(rejects, rule, core.FuncName(fn)+":second-visit-rejected", c.pos(lk), "a schema already in the seen table makes the structure check fail", "a second visit of the same *Schema no longer fails the structure check: shared subschemas (original + clone aliasing, cycles) are accepted and a cycle recurses without bound")
 		// a nil schema is rejected unconditionally before its fields are visited
 		nilRejected := false
-		core.EachInstr(fn, func(i ssa.Instruction) {
+		c.eachFam(fn, func(i ssa.Instruction) {
 			fb, ok := i.(*ssa.Call)
 			if !ok || core.CalleeKey(&fb.Call) != "reflect.Value.FieldByIndex" {
 				return
@@ -1219,7 +1229,7 @@ func ruleC20TreeCheck(c *Ctx) {
 		c.R.Check(nilRejected, rule, core.FuncName(fn)+":nil-subschema-rejected", c.pos(lk), "a nil subschema is rejected, whatever its position, before its fields are visited", "the fields of a schema are visited without an unconditional test that the schema is not nil (or the test does not return an error): a nil child somewhere in the tree makes Resolve panic")
 		allDom := true
 		for _, r := range rec {
-			if !core.Dominates(mu, r) || !core.Dominates(lk, r) {
+			if !dominatesFam(mu, r) || !dominatesFam(lk, r) {
 				allDom = false
 			}
 		}
